@@ -75,7 +75,14 @@ def run(tier, seed):
         out = env.from_string(src).render(**d)
         if out != want:
             viol.append({"id": "safe-value-altered", "witness": "safe:" + src, "source": src, "got": out})
-    for src in ("{{ plain | upcase | append: 'z' }}", "{% for i in (1..3) %}{{ i }}-{{ plain }}{% endfor %}", "{{ n | plus: 1 }}{{ plain | split: 'b' | join: '-' }}"):
+    plain_srcs = ["{{ plain | upcase | append: 'z' }}", "{% for i in (1..3) %}{{ i }}-{{ plain }}{% endfor %}", "{{ n | plus: 1 }}{{ plain | split: 'b' | join: '-' }}"]
+    # tags that key state on their arguments: literal text (marked safe under autoescape) and the same
+    # text from the data must be the same item (cycle groups, ifchanged, case/when, assign + compare)
+    plain_srcs += ['{% cycle "abc","b" %}{% cycle plain,"b" %}{% cycle "abc","b" %}', "{% for i in (1..3) %}{% cycle plain, 'x' %}{% cycle 'abc', 'x' %}{% endfor %}",
+                   "{% for i in (1..2) %}{% ifchanged %}{{ plain }}{% endifchanged %}{% ifchanged %}abc{% endifchanged %}{% endfor %}",
+                   "{% case plain %}{% when 'abc' %}hit{% else %}miss{% endcase %}{% if plain == 'abc' %}eq{% endif %}{% assign k = 'abc' %}{% if k == plain %}eq2{% endif %}",
+                   "{% capture c %}abc{% endcapture %}{% if c == plain %}same{% endif %}{% cycle c, 'y' %}{% cycle plain, 'y' %}"]
+    for src in plain_srcs:
         cases += 1
         a, b_ = env.from_string(src).render(**DATA), plain.from_string(src).render(**DATA)
         if a != b_:
